@@ -94,6 +94,40 @@ func checkEntries(t h.TB, c EntryCase) {
 			return
 		}
 		root := cands[c.Node%len(cands)]
+		// An identifier inside the subtree may be bound (go/parser's object resolution) to a
+		// declaration that *contains* the subtree, e.g. the parameter list of "func a(x [len(a)]int)":
+		// decorating the object link then decorates the enclosing declaration as well, which creates
+		// a second image of the isolated node. Such roots are not isolated; they are not used.
+		ancestors := map[ast.Node]bool{}
+		{
+			var stack []ast.Node
+			ast.Inspect(af, func(n ast.Node) bool {
+				if n == nil {
+					stack = stack[:len(stack)-1]
+					return true
+				}
+				if n == root {
+					for _, a := range stack {
+						ancestors[a] = true
+					}
+				}
+				stack = append(stack, n)
+				return true
+			})
+		}
+		leadsOut := false
+		ast.Inspect(root, func(n ast.Node) bool {
+			if id, ok := n.(*ast.Ident); ok && id.Obj != nil {
+				if d, ok := id.Obj.Decl.(ast.Node); ok && ancestors[d] {
+					leadsOut = true
+				}
+			}
+			return true
+		})
+		if leadsOut {
+			h.Exclude("an object link of the isolated subtree leads to a declaration that contains it")
+			return
+		}
 		var node dst.Node
 		h.Guard(t, sub, c, func() { node, err = dec.DecorateNode(root) })
 		if err != nil {
